@@ -968,11 +968,18 @@ impl<'a> Sem<'a> {
         let op_start = self.here();
         self.w(op);
         self.w("(");
+        // the integer operators take integers at every position, however many operands there are
+        let int_op = ["!add", "!mul", "!sub", "!and", "!or", "!xor", "!shl", "!sra", "!srl", "!div"].contains(&op);
         for (i, t) in args.iter().enumerate() {
             if i > 0 {
                 self.w(", ");
             }
+            let v0 = self.here();
             self.value(t, depth + 1);
+            if int_op && *t == Ty::Int {
+                let r = (v0, self.here());
+                self.p.typed_sites.push((self.cur, r, Ty::Int, "operator-operand"));
+            }
         }
         let close = self.here();
         self.w(")");
